@@ -295,12 +295,14 @@ def funds_cases():
         ctx = interp.ctx
         for scheme in SCHEMES:
             sevm, ex, V, marker, callee_code, pre, wl = run_call(interp, scheme)
-            moved = ex.balance is not pre.balance
-            ctx.oblige(f"value moves between accounts for CALL only (CALLCODE/DELEGATECALL keep it in the same account, STATICCALL sends none) [{scheme}]", z3.BoolVal(moved == (scheme == "CALL")))
+            a = z3.BitVec("any_account", 160)
+            b0 = pre.balance
+            defs = [c for c in ex.path.conditions]
+            if scheme != "CALL":
+                ctx.oblige(f"value moves between accounts for CALL only (CALLCODE/DELEGATECALL keep it in the same account, STATICCALL sends none): every balance is what it was [{scheme}]", z3.Implies(z3.And(*defs), z3.Select(ex.balance, a) == z3.Select(b0, a)))
+            if scheme in ("CALL", "CALLCODE"):
+                ctx.oblige(f"the callee runs only where the sender's balance covers the value (the other case is the insufficient-balance successor) [{scheme}]", z3.Implies(z3.And(*defs), z3.UGE(z3.Select(b0, THIS), V)))
             if scheme == "CALL":
-                a = z3.BitVec("any_account", 160)
-                b0 = pre.balance
-                defs = [c for c in ex.path.conditions]
                 want = z3.Store(z3.Store(b0, THIS, z3.Select(b0, THIS) - V), CALLEE, z3.Select(z3.Store(b0, THIS, z3.Select(b0, THIS) - V), CALLEE) + V)
                 ctx.oblige("CALL: sender debited, callee credited, every other account untouched (under the path's balance definitions)", z3.Implies(z3.And(*defs), z3.Select(ex.balance, a) == z3.Select(want, a)))
 
